@@ -64,7 +64,8 @@ def settings(tier):
 def extra_positions(G, L):
     pos = []
     for g in G[:-1]:
-        pos += [g + timedelta(seconds=1), g + timedelta(seconds=L if L else 2), g + timedelta(seconds=L + 1 if L else 3)]
+        # sub-second stamps: 0.4 s after the timestep, and 0.4 s after the end of the latency window (never inside it)
+        pos += [g + timedelta(seconds=0.4), g + timedelta(seconds=L if L else 2), g + timedelta(seconds=L + 0.4 if L else 3)]
     return pos
 
 
